@@ -9,6 +9,11 @@ import (
 	"github.com/teivah/majorana/risc"
 )
 
+func init() {
+	commands["isa"] = isaCase
+	commands["bytes"] = bytesCase
+}
+
 // isa case: asm (| = newline) \t index \t regs r:v,... \t pc \t mem b,b,...
 func isaCase(n int, f []string) {
 	asm := strings.ReplaceAll(f[0], "|", "\n")
